@@ -244,6 +244,8 @@ class Evaluator:
         self.events = []         # (kind, value, node, Func)
         self.depth = 0
         self.approx = 0
+        self.phase = "build"     # 'build' while the handler runs, 'visit' while the IR object is printed
+        self.tokens = None       # emission tokens of the Writer method being evaluated
         self.trace = []          # Func objects entered (helpers, constructors, visit methods), in order
         self.hooks = hooks or {}
         self.INS = Sentinel("ins")
@@ -649,8 +651,21 @@ class Evaluator:
             if all(isinstance(a, int) for a in args) and args:
                 return SList(list(range(*args)))
             return Opq("range", *args)
-        if name == "isinstance":
-            return Opq("isinstance", *[a if not isinstance(a, ClsRef) else a.cls.name for a in args])
+        if name == "isinstance" and len(args) == 2:
+            v, c = args
+            classes = list(c) if isinstance(c, tuple) else [c]
+            if isinstance(v, Obj) and all(isinstance(k, ClsRef) for k in classes):
+                mro = v.cls.mro()
+                return any(any(m is k.cls for m in mro) for k in classes)
+            if (is_concrete(v) or isinstance(v, (SList, dict))) and all(isinstance(k, ClsRef) for k in classes):
+                return False   # a plain value is not an instance of a repository class
+            if is_concrete(v) and v is not None and all(isinstance(k, Opq) and k.op == "global" for k in classes):
+                names = {k.args[0] for k in classes}
+                tn = {bool: {"bool", "int"}, int: {"int"}, str: {"str"}, float: {"float"}, bytes: {"bytes"}, tuple: {"tuple"}}
+                known = {"bool", "int", "str", "float", "bytes", "tuple", "list", "dict"}
+                if names <= known:
+                    return bool(tn.get(type(v), set()) & names)
+            return Opq("isinstance", v, *[k.cls.name if isinstance(k, ClsRef) else k for k in classes])
         if name in ("str", "int", "repr", "bool", "abs", "hex") and len(args) == 1:
             if is_concrete(args[0]):
                 try:
@@ -665,6 +680,11 @@ class Evaluator:
             self.reads.append((name, node.func if isinstance(node, ast.Call) else node, fr.func))
             return Opq("ins.call", name, *args)
         if base is self.VISITOR:
+            hook = self.hooks.get("visitor")
+            if hook:
+                r = hook(self, name, args, kwargs, node, fr)
+                if r is not NotImplemented:
+                    return r
             return Emit(name, args, kwargs, node)
         if isinstance(base, Field) or (isinstance(base, Opq) and base.op == "attr" and base.args and isinstance(base.args[0], Field)):
             # ins.cm.get_type(ins.BBBB): a lookup through the class manager
